@@ -1,12 +1,21 @@
 (* PyWriteFacts.v - what the model of the Python writer (Py.v, section "writer.py") emits.
 
-   Part 1  ghost trace: py_trace o calls, the list of items (Writer.item) the calls produce;
-           the output is its rendering (py_write_is_trace).
-   Part 2  the trace is a well-formed file for the Go lexer model (LexSpec.wf_file) under explicit
-           size bounds; hence (lex_render_thm) the Go lexer returns file_events of the trace.
-   Part 3  content of the trace in terms of the calls: attachments, metadata, messages, schemas,
-           channels; statistics; index entries designate the rendering position of their items;
-           footer fields and summary crc; the DataEnd crc and its quirk. *)
+   Part 0/1  ghost trace: py_trace o calls, the list of items (Writer.item) the calls produce, defined by
+             pt_step o w c (the items one call emits from state w); characterisation of __finalize_chunk
+             (fin_spec, fin_state) and finish() (finish_spec); the output is the rendering of the trace
+             (py_write_is_trace, py_run_is_trace, py_trace_shape).
+   Part 2    the trace is a well-formed file for the Go lexer model (LexSpec.wf_file) under explicit size
+             bounds (py_trace_wf), hence the Go lexer returns file_events of the trace (py_write_lex); the
+             size bounds follow from a bound on the file size (py_sizes_from_total, section 2c).
+   Part 3    content of the trace in terms of the calls: per record class the data section holds what the
+             calls asked for (py_data_content and its corollaries; `dropped` = the schema / channel records
+             finish() never writes), the same at the level of lexer events and decoded by Go's parsers;
+             3f index entries designate the rendering position of their items (Loc, py_index_positions,
+             mi_offs_spec, py_footer_fields); 3d/3e registered schemas / channels and the statistics record
+             (py_registered, py_statistics); 3g the DataEnd crc (py_dataend_crc_ok, py_dataend_crc_general,
+             py_dataend_crc_refuted); 3h which registrations are written, parse_py_metadata; 3i chunk records.
+   Part 4    concrete sessions: every hypothesis above holds on them by computation.
+   Part 5    combined statements restated in properties/C16_pywrite.v. *)
 From Coq Require Import List NArith ZArith Bool Lia ZifyN ZifyNat ZifyBool.
 From Coq.Strings Require Import Byte.
 From Mcap Require Import Bytes BytesFacts GoSem Crc32 Crc32Facts Records RecordsFacts Writer Lexer LexSpec
@@ -510,9 +519,27 @@ Fixpoint inner_steps (o : pwopts) (w : pw) (inner : list (byte * bytes)) (cs : l
   | c :: r => inner_steps o (pw_step o w c) (inner_step o w inner c) r
   end.
 
+(* least / greatest log time of a list of messages (0 for the empty list) *)
+Definition log_min (ms : list message) : N :=
+  match ms with [] => 0 | m :: r => fold_left N.min (map m_log r) (m_log m) end.
+Definition log_max (ms : list message) : N := fold_left N.max (map m_log ms) 0.
+Lemma log_min_snoc ms m :
+  log_min (ms ++ [m]) = match ms with [] => m_log m | _ => N.min (m_log m) (log_min ms) end.
+Proof.
+  destruct ms as [|m1 r]; [reflexivity|]. cbn [app log_min]. rewrite map_app, fold_left_app. cbn [map fold_left].
+  apply N.min_comm.
+Qed.
+Lemma log_max_snoc ms m : log_max (ms ++ [m]) = N.max (m_log m) (log_max ms).
+Proof. unfold log_max. rewrite map_app, fold_left_app. cbn [map fold_left]. apply N.max_comm. Qed.
+
+(* the message records among inner are the encodings of ms *)
+Definition inner_msgs (inner : list (byte * bytes)) (ms : list message) : Prop :=
+  filter is_msg_rec inner = map (fun m => (OpMessage, enc_message m)) ms.
+
 Definition cb_ok (cb : pcb) (inner : list (byte * bytes)) : Prop :=
   cb_buf cb = frames inner /\ cb_start cb < two64 /\ cb_end cb < two64 /\ Forall auto_rec inner
-  /\ cb_num cb = N.of_nat (length (filter is_msg_rec inner)).
+  /\ cb_num cb = N.of_nat (length (filter is_msg_rec inner))
+  /\ exists ms, inner_msgs inner ms /\ cb_start cb = log_min ms /\ cb_end cb = log_max ms.
 
 Definition SInv (w : pw) (inner : list (byte * bytes)) : Prop :=
   match pw_cb w with Some cb => cb_ok cb inner | None => inner = [] end.
@@ -526,6 +553,7 @@ Definition item_built (it : item) : Prop :=
     k_start k < two64 /\ k_end k < two64 /\ k_comp k = [] /\ k_usize k = blen (k_records k)
     /\ (k_crc k = 0 \/ k_crc k = crc32 (k_records k))
     /\ exists inner, k_records k = frames inner /\ Forall auto_rec inner
+                     /\ exists ms, inner_msgs inner ms /\ k_start k = log_min ms /\ k_end k = log_max ms
   | IAttach a data crc =>
     a_log a < two64 /\ a_create a < two64 /\ blen (a_name a) < two32 /\ blen (a_media a) < two32
     /\ a_size a = blen data /\ crc = crc32 (enc_attachment_fields a ++ data)
@@ -539,27 +567,38 @@ Lemma frames_snoc inner op body : frames (inner ++ [(op, body)]) = frames inner 
 Proof. unfold frames. rewrite map_app, concat_app. cbn [map concat frame_of fst snd]. rewrite app_nil_r. reflexivity. Qed.
 
 Lemma cb_ok_empty : cb_ok cb_empty [].
-Proof. unfold cb_ok, cb_empty. cbn [cb_buf cb_start cb_end cb_num]. repeat split; try reflexivity. constructor. Qed.
+Proof.
+  unfold cb_ok, cb_empty. cbn [cb_buf cb_start cb_end cb_num]. repeat split; try reflexivity; [constructor|].
+  exists []. repeat split.
+Qed.
 
 Lemma cb_ok_add_record cb inner op body :
   cb_ok cb inner -> op = OpSchema \/ op = OpChannel -> cb_ok (cb_add_record cb op body) (inner ++ [(op, body)]).
 Proof.
-  intros (Hb & Hs & He & Ha & Hn) Hop. unfold cb_ok, cb_add_record. cbn [cb_buf cb_start cb_end cb_num].
-  rewrite frames_snoc, Hb. repeat split; try assumption.
+  intros (Hb & Hs & He & Ha & Hn & ms & Hm & Hmin & Hmax) Hop. unfold cb_ok, cb_add_record. cbn [cb_buf cb_start cb_end cb_num].
+  assert (Hf : filter is_msg_rec (inner ++ [(op, body)]) = filter is_msg_rec inner).
+  { rewrite filter_app. cbn [filter is_msg_rec fst]. destruct Hop as [-> | ->]; cbn; apply app_nil_r. }
+  rewrite frames_snoc, Hb, Hf. split; [reflexivity|]. split; [exact Hs|]. split; [exact He|]. split; [|split; [exact Hn|]].
   - apply Forall_app. split; [exact Ha|]. constructor; [|constructor]. unfold auto_rec. cbn [fst]. tauto.
-  - rewrite filter_app. cbn [filter is_msg_rec fst]. destruct Hop as [-> | ->]; cbn; rewrite app_nil_r; exact Hn.
+  - exists ms. unfold inner_msgs. rewrite Hf. repeat split; assumption.
 Qed.
 
 Lemma cb_ok_add_message cb inner m :
   cb_ok cb inner -> m_log m < two64 -> cb_ok (cb_add_message cb m) (inner ++ [(OpMessage, enc_message m)]).
 Proof.
-  intros (Hb & Hs & He & Ha & Hn) Hl. unfold cb_ok, cb_add_message. cbn [cb_buf cb_start cb_end cb_num].
-  rewrite frames_snoc, Hb. repeat split.
-  - destruct (cb_num cb =? 0); lia.
-  - lia.
+  intros (Hb & Hs & He & Ha & Hn & ms & Hm & Hmin & Hmax) Hl. unfold cb_ok, cb_add_message. cbn [cb_buf cb_start cb_end cb_num].
+  assert (Hf : filter is_msg_rec (inner ++ [(OpMessage, enc_message m)]) = filter is_msg_rec inner ++ [(OpMessage, enc_message m)]).
+  { rewrite filter_app. reflexivity. }
+  rewrite frames_snoc, Hb, Hf. split; [reflexivity|]. split; [destruct (cb_num cb =? 0); lia|]. split; [lia|].
+  split; [|split].
   - apply Forall_app. split; [exact Ha|]. constructor; [|constructor]. unfold auto_rec. cbn [fst]. tauto.
-  - rewrite filter_app. cbn [filter]. change (is_msg_rec (OpMessage, enc_message m)) with true. cbn iota.
-    rewrite app_length. cbn [length]. lia.
+  - rewrite app_length. cbn [length]. lia.
+  - exists (ms ++ [m]). unfold inner_msgs in *. rewrite Hf, Hm, map_app, log_min_snoc, log_max_snoc. split; [reflexivity|].
+    rewrite Hm, map_length in Hn. split.
+    + destruct ms as [|m0 r].
+      * rewrite Hn. reflexivity.
+      * rewrite Hn. cbn [length]. destruct (N.eqb_spec (N.of_nat (S (length r))) 0); [lia|]. rewrite Hmin. apply N.min_comm.
+    + rewrite Hmax. apply N.max_comm.
 Qed.
 
 Section Built.
@@ -567,10 +606,10 @@ Variable o : pwopts.
 
 Lemma chunk_built cb inner : cb_ok cb inner -> item_built (IChunk (chunk_of o cb)).
 Proof.
-  intros (Hb & Hs & He & Ha & Hn). cbn [item_built chunk_of k_start k_end k_comp k_usize k_records k_crc].
-  repeat split; try assumption.
+  intros (Hb & Hs & He & Ha & Hn & ms & Hm & Hmin & Hmax). cbn [item_built chunk_of k_start k_end k_comp k_usize k_records k_crc].
+  split; [exact Hs|]. split; [exact He|]. split; [reflexivity|]. split; [reflexivity|]. split.
   - destruct (po_crcs o); [right|left]; reflexivity.
-  - exists inner. split; assumption.
+  - exists inner. split; [exact Hb|]. split; [exact Ha|]. exists ms. repeat split; assumption.
 Qed.
 
 Lemma mi_items_built cb : Forall item_built (mi_items o cb).
@@ -747,7 +786,7 @@ Proof.
   destruct it as [|op body|k|a data crc|ss sos crc]; cbn [item_built item_size_ok wf_item].
   - intros [] _.
   - intros (H1 & H2 & H3) (H4 & H5). unfold plain_rec_ok. cbn [fst snd] in *. repeat split; assumption.
-  - intros (Hs & He & Hc & Hu & Hcrc & inner & Hr & Ha) (Hl & H63 & Hsz & Hv).
+  - intros (Hs & He & Hc & Hu & Hcrc & inner & Hr & Ha & _) (Hl & H63 & Hsz & Hv).
     unfold wf_chunk_item. rewrite Hemit.
     assert (H64 : Forall (fun r => blen (snd r) < two64) inner).
     { eapply Forall_impl; [|apply frames_body_le]. cbv beta. intros r Hle. rewrite <- Hr in Hle.
@@ -1266,7 +1305,7 @@ Lemma dropped_no_msg : filter is_msg_rec dropped = [].
 Proof.
   pose proof session_SInv as HI. unfold SInv in HI. unfold dropped.
   destruct (pw_cb final_state) as [cb|]; [|reflexivity]. destruct (cb_num cb =? 0) eqn:Hn; [|reflexivity].
-  destruct HI as (_ & _ & _ & _ & Hc). apply N.eqb_eq in Hn. rewrite Hn in Hc.
+  destruct HI as (_ & _ & _ & _ & Hc & _). apply N.eqb_eq in Hn. rewrite Hn in Hc.
   clear Hunz Hsmall. clear unz. destruct (filter is_msg_rec final_inner); [reflexivity | cbn [length] in Hc; lia].
 Qed.
 
@@ -1814,20 +1853,9 @@ Proof.
   rewrite <- app_assoc, app_length. cbn [length app channel_of]. rewrite Nat.add_1_r. reflexivity.
 Qed.
 
-Definition log_min (ms : list message) : N :=
-  match ms with [] => 0 | m :: r => fold_left N.min (map m_log r) (m_log m) end.
-Definition log_max (ms : list message) : N := fold_left N.max (map m_log ms) 0.
 Definition chan_count (ch : N) (ms : list message) : N :=
   N.of_nat (length (filter (fun m => m_chan m =? ch) ms)).
 
-Lemma log_min_snoc ms m :
-  log_min (ms ++ [m]) = match ms with [] => m_log m | _ => N.min (m_log m) (log_min ms) end.
-Proof.
-  destruct ms as [|m1 r]; [reflexivity|]. cbn [app log_min]. rewrite map_app, fold_left_app. cbn [map fold_left].
-  apply N.min_comm.
-Qed.
-Lemma log_max_snoc ms m : log_max (ms ++ [m]) = N.max (m_log m) (log_max ms).
-Proof. unfold log_max. rewrite map_app, fold_left_app. cbn [map fold_left]. apply N.max_comm. Qed.
 
 Lemma fold_min_le l : forall a, fold_left N.min l a <= a /\ Forall (fun x => fold_left N.min l a <= x) l
                                  /\ (fold_left N.min l a = a \/ In (fold_left N.min l a) l).
@@ -2549,4 +2577,496 @@ Proof.
 Qed.
 
 End Decode.
+
+(* ====================================================================== *)
+(** * 3i. the chunk records *)
+Section Chunks.
+Variable o : pwopts.
+
+(* every chunk item of the data section is chunk_of o cb for some chunk builder state: uncompressed,
+   k_usize = length of the records, k_crc = crc32 of the records when po_crcs, else 0 *)
+Definition chunk_form (it : item) : Prop :=
+  match it with IChunk k => exists cb, k = chunk_of o cb | _ => True end.
+
+Lemma fin_items_form cbo : Forall chunk_form (fin_items o cbo).
+Proof.
+  destruct cbo as [cb|]; [|constructor]. cbn [fin_items]. destruct (cb_num cb =? 0); [constructor|].
+  constructor; [exists cb; reflexivity|]. unfold mi_items. destruct (po_idx_msg o); [|constructor].
+  apply Forall_forall. intros it Hit. apply in_map_iff in Hit. destruct Hit as (x & <- & _). exact I.
+Qed.
+
+Lemma maybe_items_form cbo : Forall chunk_form (maybe_items o cbo).
+Proof.
+  destruct cbo as [cb|]; [|constructor]. unfold maybe_items.
+  destruct (po_chunk_size o <? blen (cb_buf cb)); [apply fin_items_form | constructor].
+Qed.
+
+Lemma trace_from_form cs : forall w, data_calls cs = true -> Forall chunk_form (trace_from o w cs).
+Proof.
+  induction cs as [|c cs IH]; intros w Hd; [constructor|].
+  cbn [data_calls forallb] in Hd. apply andb_true_iff in Hd. destruct Hd as [Hc Hd].
+  apply andb_true_iff in Hc. destruct Hc as [Hs Hf]. apply negb_true_iff in Hs. apply negb_true_iff in Hf.
+  cbn [trace_from]. apply Forall_app. split; [|apply IH, Hd].
+  destruct c; try discriminate; cbn [pt_step]; unfold data_rec_items;
+    try (destruct (pw_cb w); [apply maybe_items_form|]); repeat constructor.
+Qed.
+
+Theorem py_chunks_form p l cs : data_calls cs = true -> Forall chunk_form (data_items o p l cs).
+Proof.
+  intro Hd. unfold data_items. constructor; [exact I|]. apply Forall_app. split; [apply trace_from_form, Hd | apply fin_items_form].
+Qed.
+
+(* the chunk's content is a sequence of schema / channel / message records; its start and end times are
+   the least and the greatest log time of its messages *)
+Definition chunk_described (it : item) : Prop :=
+  match it with
+  | IChunk k =>
+    exists inner ms, k_records k = frames inner /\ Forall auto_rec inner /\ inner_msgs inner ms
+                     /\ ms <> [] /\ k_start k = log_min ms /\ k_end k = log_max ms
+  | _ => True
+  end.
+
+Lemma cb_ok_described cb inner : cb_ok cb inner -> (cb_num cb =? 0) = false -> chunk_described (IChunk (chunk_of o cb)).
+Proof.
+  intros (Hb & _ & _ & Ha & Hn & ms & Hm & Hmin & Hmax) Hnz. cbn [chunk_described chunk_of k_records k_start k_end].
+  exists inner, ms. repeat split; try assumption. intros ->. unfold inner_msgs in Hm. cbn [map] in Hm.
+  rewrite Hm in Hn. cbn [length] in Hn. rewrite Hn in Hnz. discriminate.
+Qed.
+
+Lemma fin_items_described cb inner : cb_ok cb inner -> Forall chunk_described (fin_items o (Some cb)).
+Proof.
+  intro H. cbn [fin_items]. destruct (cb_num cb =? 0) eqn:Hn; [constructor|].
+  constructor; [eapply cb_ok_described; eassumption|]. unfold mi_items. destruct (po_idx_msg o); [|constructor].
+  apply Forall_forall. intros it Hit. apply in_map_iff in Hit. destruct Hit as (x & <- & _). exact I.
+Qed.
+
+Lemma maybe_items_described cb inner : cb_ok cb inner -> Forall chunk_described (maybe_items o (Some cb)).
+Proof.
+  intro H. unfold maybe_items. destruct (po_chunk_size o <? blen (cb_buf cb)); [eapply fin_items_described; exact H | constructor].
+Qed.
+
+Lemma trace_from_described cs : forall w inner w',
+  SInv w inner -> data_calls cs = true -> pw_run o w cs = POk w' -> Forall chunk_described (trace_from o w cs).
+Proof.
+  induction cs as [|c cs IH]; intros w inner w' HI Hd Hr; [constructor|].
+  cbn [data_calls forallb] in Hd. apply andb_true_iff in Hd. destruct Hd as [Hc Hd].
+  apply andb_true_iff in Hc. destruct Hc as [Hs Hf]. apply negb_true_iff in Hs. apply negb_true_iff in Hf.
+  cbn [pw_run] in Hr. destruct (pcall_ok w c) eqn:Hok; [|discriminate].
+  destruct (step_built o w inner c HI Hok Hs Hf) as [_ HI'].
+  cbn [trace_from]. apply Forall_app. split; [|eapply IH; eassumption].
+  unfold SInv in HI.
+  destruct c as [p l|n e d|t me sid m|ch lg d pb sq|cr lg n me d|n m|]; try discriminate; cbn [pt_step]; unfold data_rec_items.
+  - destruct (pw_cb w) as [cb|]; [|repeat constructor].
+    eapply maybe_items_described. apply cb_ok_add_record; [exact HI | left; reflexivity].
+  - destruct (pw_cb w) as [cb|]; [|repeat constructor].
+    eapply maybe_items_described. apply cb_ok_add_record; [exact HI | right; reflexivity].
+  - destruct (pw_cb w) as [cb|]; [|repeat constructor].
+    eapply maybe_items_described. apply cb_ok_add_message; [exact HI|].
+    cbn [pcall_ok] in Hok. apply andb_true_iff in Hok. destruct Hok as [Hok _].
+    apply andb_true_iff in Hok. destruct Hok as [Hok _]. apply andb_true_iff in Hok. destruct Hok as [_ Hok].
+    cbn [msg_of m_log]. apply ltb_true, Hok.
+  - repeat constructor.
+  - repeat constructor.
+Qed.
+
+Theorem py_chunks_described p l cs b :
+  py_write o (PcStart p l :: cs ++ [PcFinish]) = POk b -> data_calls cs = true ->
+  Forall chunk_described (data_items o p l cs).
+Proof.
+  intros Hw Hd. pose proof (session_run o p l cs b Hw) as Hr. pose proof (session_SInv o p l cs b Hw Hd) as HI.
+  unfold data_items. constructor; [exact I|]. apply Forall_app. split.
+  - eapply trace_from_described; [apply started_SInv | exact Hd | exact Hr].
+  - unfold SInv in HI. destruct (pw_cb (final_state o p l cs)) as [cb|]; [eapply fin_items_described; exact HI | constructor].
+Qed.
+
+End Chunks.
+
+(* ====================================================================== *)
+(** * 4. concrete sessions (non-vacuity of the theorems above) *)
+
+(* chunked session: 3 schemas (the last one registered after the last message), 2 channels with
+   metadata maps, 5 messages in 2 chunks (chunk size 100), an attachment and a metadata record
+   written while a chunk is open *)
+Definition pyex_o : pwopts :=
+  {| po_chunk_size := 100; po_idx_att := true; po_idx_chunk := true; po_idx_msg := true; po_idx_md := true;
+     po_repeat_channels := true; po_repeat_schemas := true; po_chunking := true; po_statistics := true;
+     po_summary_offsets := true; po_crcs := true; po_data_crcs := true |}.
+Definition pyex_p : bytes := [x70].
+Definition pyex_l : bytes := [x6c; x69; x62].
+Definition pyex_cs : list pcall :=
+  [ PcSchema [x73; x31] [x65] [x01; x02; x03];
+    PcSchema [x73; x32] [x65] [];
+    PcChannel [x2f; x61] [x6d] 1 [([x6b; x32], [x76]); ([x6b; x31], [x77])];
+    PcChannel [x2f; x62] [x6d] 2 [([x7a], [x31])];
+    PcMessage 1 10 [x01; x02; x03; x04; x05; x06; x07; x08] 11 0;
+    PcMessage 2 12 [x09] 13 1;
+    PcAttachment 5 6 [x61; x74] [x74; x78] [x41; x42; x43];
+    PcMessage 1 14 [x0a; x0b] 15 2;
+    PcMetadata [x6d; x64] [([x62], [x32]); ([x61], [x31])];
+    PcMessage 2 9 [x0c] 16 3;
+    PcMessage 1 20 [] 21 4;
+    PcSchema [x73; x33] [x65] [] ].
+Definition pyex_calls : list pcall := PcStart pyex_p pyex_l :: pyex_cs ++ [PcFinish].
+Definition pyex_bytes : bytes :=
+  match py_write pyex_o pyex_calls with POk b => b | _ => [] end.
+
+Example pyex_written :
+  py_write pyex_o pyex_calls = POk pyex_bytes /\ blen pyex_bytes = 1371
+  /\ data_calls pyex_cs = true /\ no_start pyex_cs = true.
+Proof. vm_compute. repeat split. Qed.
+
+(* Theorem 1 on the example, checked independently by computation *)
+Example pyex_is_trace : pyex_bytes = render (py_trace pyex_o pyex_calls).
+Proof. vm_compute. reflexivity. Qed.
+
+(* kinds of items of the trace: magic, header, chunk, 1 message index, attachment, metadata, chunk,
+   2 message indexes, DataEnd, summary (3 schemas, 2 channels, statistics, 2 chunk indexes,
+   attachment index, metadata index, 6 summary offsets), footer, magic *)
+Definition item_kind (it : item) : N :=
+  match it with
+  | IMagic => 0 | IRec op _ => Byte.to_N op | IChunk _ => 6 | IAttach _ _ _ => 9 | IFooter _ _ _ => 2
+  end.
+Example pyex_trace_kinds :
+  map item_kind (py_trace pyex_o pyex_calls)
+  = [0; 1; 6; 7; 9; 12; 6; 7; 7; 15; 3; 3; 3; 4; 4; 11; 8; 8; 10; 13; 14; 14; 14; 14; 14; 14; 2; 0].
+Proof. vm_compute. reflexivity. Qed.
+
+Definition pyex_lo (validate : bool) (cb : cbmode) : lopts := ex_lopts validate false cb.
+
+Example pyex_lo_ok validate cb :
+  lo_skip_magic (pyex_lo validate cb) = false /\ lo_emit_chunks (pyex_lo validate cb) = false
+  /\ mem_bytes [] (lo_custom (pyex_lo validate cb)) = false.
+Proof. repeat split. Qed.
+
+(* the size hypotheses, from the file size *)
+Example pyex_sizes validate cb : Forall (item_size_ok (pyex_lo validate cb)) (py_trace pyex_o pyex_calls).
+Proof.
+  apply (py_sizes_from_total pyex_o (pyex_lo validate cb) pyex_p pyex_l pyex_cs pyex_bytes).
+  - exact (proj1 pyex_written).
+  - exact (proj1 (proj2 (proj2 pyex_written))).
+  - rewrite (proj1 (proj2 pyex_written)). reflexivity.
+  - left. reflexivity.
+  - left. reflexivity.
+Qed.
+
+Lemma size_ok_small lo it : item_size_ok lo it -> chunk_small it.
+Proof.
+  destruct it as [|op body|k|a d c|ss sos c]; unfold chunk_small; try (intros _; exact I).
+  cbn [item_size_ok]. intros (_ & H & _). apply two63_lt_two64, H.
+Qed.
+
+Example pyex_small : Forall chunk_small (py_trace pyex_o pyex_calls).
+Proof. eapply Forall_impl; [apply size_ok_small | apply (pyex_sizes true CbFull)]. Qed.
+
+(* Theorem 2 on the example, for CRC validation on or off, attachment callback absent or reading everything *)
+Example pyex_wf validate cb :
+  cb = CbNone \/ cb = CbFull -> wf_file (pyex_lo validate cb) ds_id (py_trace pyex_o pyex_calls).
+Proof.
+  intro Hcb. apply (py_trace_wf pyex_o (pyex_lo validate cb) ds_id pyex_p pyex_l pyex_cs pyex_bytes).
+  - reflexivity.
+  - reflexivity.
+  - reflexivity.
+  - exact Hcb.
+  - exact (proj1 pyex_written).
+  - exact (proj1 (proj2 (proj2 pyex_written))).
+  - apply pyex_sizes.
+Qed.
+
+Example pyex_lex validate cb sk :
+  cb = CbNone \/ cb = CbFull ->
+  exists st, lex_all (pyex_lo validate cb) ds_id 40 (src_of pyex_bytes sk)
+             = Ok (file_events (pyex_lo validate cb) ds_id (py_trace pyex_o pyex_calls), EEOF, st).
+Proof.
+  intro Hcb. apply (py_write_lex pyex_o (pyex_lo validate cb) ds_id pyex_p pyex_l pyex_cs pyex_bytes sk).
+  - reflexivity.
+  - reflexivity.
+  - reflexivity.
+  - exact Hcb.
+  - exact (proj1 pyex_written).
+  - exact (proj1 (proj2 (proj2 pyex_written))).
+  - apply pyex_sizes.
+  - destruct Hcb as [-> | ->]; destruct validate; vm_compute; lia.
+Qed.
+
+(* the lexer model run on the written bytes by computation: 33 events, then io.EOF; the message
+   tokens are the five messages written, in order *)
+Example pyex_lex_computed :
+  exists evs st,
+    lex_all (pyex_lo true CbFull) ds_id 40 (src_of pyex_bytes false) = Ok (evs, EEOF, st)
+    /\ length evs = 33%nat
+    /\ filter (ev_op OpMessage) evs = map (fun m => EvToken OpMessage (enc_message m)) (msgs_of pyex_cs)
+    /\ map decode_event (filter (ev_op OpMessage) evs) = map (fun m => Ok (KMessage m)) (msgs_of pyex_cs)
+    /\ msgs_of pyex_cs = [msg_of 1 10 [x01; x02; x03; x04; x05; x06; x07; x08] 11 0; msg_of 2 12 [x09] 13 1;
+                          msg_of 1 14 [x0a; x0b] 15 2; msg_of 2 9 [x0c] 16 3; msg_of 1 20 [] 21 4].
+Proof. eexists. eexists. vm_compute. repeat split. Qed.
+
+(* content *)
+Example pyex_dropped :
+  dropped pyex_o pyex_p pyex_l pyex_cs = [(OpSchema, enc_schema {| s_id := 3; s_name := [x73; x33]; s_encoding := [x65]; s_data := [] |})]
+  /\ reg_schemas 0 pyex_cs
+     = [ {| s_id := 1; s_name := [x73; x31]; s_encoding := [x65]; s_data := [x01; x02; x03] |};
+         {| s_id := 2; s_name := [x73; x32]; s_encoding := [x65]; s_data := [] |};
+         {| s_id := 3; s_name := [x73; x33]; s_encoding := [x65]; s_data := [] |} ]
+  /\ filter (is_op OpSchema) (all_records (fun _ s => s) (data_items pyex_o pyex_p pyex_l pyex_cs))
+     = map (fun s => CR OpSchema (enc_schema s)) (firstn 2 (reg_schemas 0 pyex_cs))
+  /\ pw_schemas (closed_state pyex_o pyex_p pyex_l pyex_cs) = reg_schemas 0 pyex_cs.
+Proof. vm_compute. repeat split. Qed.
+
+Example pyex_statistics :
+  pw_stats (closed_state pyex_o pyex_p pyex_l pyex_cs)
+  = {| st_messages := 5; st_schemas := 3; st_channels := 2; st_attachments := 1; st_metadata := 1; st_chunks := 2;
+       st_start := 9; st_end := 20; st_counts := [(1, 3); (2, 2)] |}.
+Proof. vm_compute. reflexivity. Qed.
+
+Example pyex_chunk_indexes :
+  map (fun ci => (ci_offset ci, ci_length ci, ci_start ci, ci_end ci, ci_mioffsets ci, ci_milength ci))
+      (pw_chunks (closed_state pyex_o pyex_p pyex_l pyex_cs))
+  = [(29, 231, 10, 10, [(1, 260)], 31); (382, 177, 9, 20, [(2, 559); (1, 606)], 94)]
+  /\ chunk_offsets 0 (before_dataend pyex_o pyex_p pyex_l pyex_cs) = [29; 382].
+Proof. vm_compute. split; reflexivity. Qed.
+
+Example pyex_dataend_crc :
+  po_data_crcs pyex_o = true /\ (po_chunking pyex_o = true \/ ends_with_reg pyex_cs = false)
+  /\ pw_crc (closed_state pyex_o pyex_p pyex_l pyex_cs) = crc32 (render (before_dataend pyex_o pyex_p pyex_l pyex_cs)).
+Proof. split; [reflexivity|]. split; [left; reflexivity|]. vm_compute. reflexivity. Qed.
+
+(* the metadata record comes back from Go's parser with the map sorted by key *)
+Example pyex_metadata_parsed :
+  mds_of pyex_cs = [{| md_name := [x6d; x64]; md_meta := [([x62], [x32]); ([x61], [x31])] |}]
+  /\ Forall (fun m => blen (py_enc_metadata m) < two32) (mds_of pyex_cs)
+  /\ parse_metadata (py_enc_metadata {| md_name := [x6d; x64]; md_meta := [([x62], [x32]); ([x61], [x31])] |})
+     = Ok {| md_name := [x6d; x64]; md_meta := [([x61], [x31]); ([x62], [x32])] |}
+  /\ kv_build [([x62], [x32]); ([x61], [x31])] = [([x61], [x31]); ([x62], [x32])].
+Proof. split; [reflexivity|]. split; [repeat constructor|]. split; vm_compute; reflexivity. Qed.
+
+Example pyex_before_message :
+  pyex_cs = firstn 4 pyex_cs ++ PcMessage 1 10 [x01; x02; x03; x04; x05; x06; x07; x08] 11 0 :: skipn 5 pyex_cs.
+Proof. reflexivity. Qed.
+
+(* ---------- a schema registered after the last message may be written ---------- *)
+(* "exactly the records registered before the last message are written" is false: adding s2 pushes
+   the open chunk (which holds a message) over the chunk size, the chunk is closed with s2 in it *)
+Definition pyex_late_cs : list pcall :=
+  [ PcSchema [x73; x31] [x65] [x01; x02; x03];
+    PcChannel [x2f; x61] [x6d] 1 [];
+    PcMessage 1 10 [x01] 11 0;
+    PcSchema [x73; x32] [x65] [x01; x02; x03; x04; x05; x06; x07; x08; x09; x0a; x01; x02; x03; x04; x05; x06; x07; x08; x09; x0a] ].
+
+Example pyex_late_schema_written :
+  (exists b, py_write pyex_o (PcStart [] [] :: pyex_late_cs ++ [PcFinish]) = POk b)
+  /\ dropped pyex_o [] [] pyex_late_cs = []
+  /\ filter (is_op OpSchema) (all_records (fun _ s => s) (data_items pyex_o [] [] pyex_late_cs))
+     = map (fun s => CR OpSchema (enc_schema s)) (reg_schemas 0 pyex_late_cs)
+  /\ length (reg_schemas 0 pyex_late_cs) = 2%nat.
+Proof. split; [eexists; vm_compute; reflexivity|]. vm_compute. repeat split. Qed.
+
+(* ---------- the DataEnd crc without chunking ---------- *)
+Definition pyex_nochunk_o : pwopts :=
+  {| po_chunk_size := 100; po_idx_att := true; po_idx_chunk := true; po_idx_msg := true; po_idx_md := true;
+     po_repeat_channels := true; po_repeat_schemas := true; po_chunking := false; po_statistics := true;
+     po_summary_offsets := true; po_crcs := true; po_data_crcs := true |}.
+Definition pyex_quirk_cs : list pcall := [PcSchema [x73] [x65] [x01]].
+
+(* the statement "the DataEnd crc is the crc of the bytes before the DataEnd record" is false of the
+   model (and of writer.py: the same two numbers come out of the Python package): a schema registered
+   just before finish() is written with the DataEnd record but is not covered by its crc *)
+Example py_dataend_crc_refuted :
+  (exists b, py_write pyex_nochunk_o (PcStart [] [] :: pyex_quirk_cs ++ [PcFinish]) = POk b)
+  /\ data_calls pyex_quirk_cs = true /\ po_data_crcs pyex_nochunk_o = true
+  /\ In (IRec OpDataEnd (enc_dataend {| de_crc := 3959079795 |}))
+        (py_trace pyex_nochunk_o (PcStart [] [] :: pyex_quirk_cs ++ [PcFinish]))
+  /\ pw_crc (closed_state pyex_nochunk_o [] [] pyex_quirk_cs) = 3959079795
+  /\ crc32 (render (before_dataend pyex_nochunk_o [] [] pyex_quirk_cs)) = 2949608179
+  /\ ends_with_reg pyex_quirk_cs = true.
+Proof.
+  split; [eexists; vm_compute; reflexivity|]. split; [reflexivity|]. split; [reflexivity|].
+  split; [vm_compute; tauto|]. vm_compute. repeat split.
+Qed.
+
+(* a session without chunking for which the hypothesis of py_dataend_crc_ok / py_nochunk_all_written holds *)
+Definition pyex_nochunk_cs : list pcall :=
+  [ PcSchema [x73] [x65] [x01]; PcChannel [x2f; x61] [x6d] 1 []; PcMessage 1 10 [x01] 11 0 ].
+Example pyex_nochunk :
+  (exists b, py_write pyex_nochunk_o (PcStart [] [] :: pyex_nochunk_cs ++ [PcFinish]) = POk b)
+  /\ data_calls pyex_nochunk_cs = true /\ ends_with_reg pyex_nochunk_cs = false
+  /\ Forall chunk_small (py_trace pyex_nochunk_o (PcStart [] [] :: pyex_nochunk_cs ++ [PcFinish]))
+  /\ pw_crc (closed_state pyex_nochunk_o [] [] pyex_nochunk_cs)
+     = crc32 (render (before_dataend pyex_nochunk_o [] [] pyex_nochunk_cs)).
+Proof.
+  split; [eexists; vm_compute; reflexivity|]. split; [reflexivity|]. split; [reflexivity|].
+  split; [|vm_compute; reflexivity].
+  apply Forall_forall. intros it Hit. vm_compute in Hit.
+  repeat (destruct Hit as [<- | Hit]; [exact I|]). destruct Hit.
+Qed.
+
+(* hypotheses of parse_py_metadata / parse_py_metadata_distinct on the metadata record of the example *)
+Example pyex_metadata_wf :
+  let m := {| md_name := [x6d; x64]; md_meta := [([x62], [x32]); ([x61], [x31])] |} in
+  blen (md_name m) < two32 /\ Forall wf_kv (md_meta m) /\ wf_kvs (md_meta m) /\ blen (py_enc_metadata m) < two32
+  /\ kv_sort (rev (md_meta m)) = [([x61], [x31]); ([x62], [x32])].
+Proof.
+  cbv zeta. cbn [md_name md_meta]. split; [reflexivity|].
+  assert (F : Forall wf_kv [([x62], [x32]); ([x61], [x31])]) by (repeat constructor).
+  split; [exact F|]. split; [|split; [reflexivity | vm_compute; reflexivity]].
+  split; [|exact F]. apply keys_nodupb_iff. reflexivity.
+Qed.
+
+(* the same session written without CRCs (chunk crc 0, footer crc 0): the validating lexer accepts it *)
+Definition pyex_nocrc_o : pwopts :=
+  {| po_chunk_size := 100; po_idx_att := true; po_idx_chunk := true; po_idx_msg := true; po_idx_md := true;
+     po_repeat_channels := true; po_repeat_schemas := true; po_chunking := true; po_statistics := true;
+     po_summary_offsets := true; po_crcs := false; po_data_crcs := false |}.
+Example pyex_nocrc_lexed :
+  exists b evs st,
+    py_write pyex_nocrc_o pyex_calls = POk b
+    /\ b = render (py_trace pyex_nocrc_o pyex_calls)
+    /\ lex_all (pyex_lo true CbFull) ds_id 40 (src_of b false) = Ok (evs, EEOF, st)
+    /\ evs = file_events (pyex_lo true CbFull) ds_id (py_trace pyex_nocrc_o pyex_calls)
+    /\ filter (ev_op OpMessage) evs = map (fun m => EvToken OpMessage (enc_message m)) (msgs_of pyex_cs).
+Proof. eexists. eexists. eexists. vm_compute. repeat split. Qed.
+
+(* ====================================================================== *)
+(** * 5. combined statements, as restated in properties/C16_pywrite.v *)
+
+Lemma C16_pywrite_trace_sections_thm : forall (o : pwopts) (p l : bytes) (cs : list pcall),
+  py_trace o (PcStart p l :: cs ++ [PcFinish])
+  = [IMagic] ++ data_items o p l cs ++ tail_items o p l cs ++ [IMagic]
+  /\ data_items o p l cs
+     = header_item p l :: trace_from o (started o p l) cs ++ fin_items o (pw_cb (final_state o p l cs))
+  /\ tail_items o p l cs
+     = (let w1 := closed_state o p l cs in
+        [dataend_item w1] ++ (sum_items o w1 ++ so_items o (grp_offs (summary_start_of w1) (sum_groups o w1)))
+        ++ [IFooter (footer_ss o w1) (footer_sos o w1) (footer_crc o w1)]).
+Proof.
+  intros. split; [apply py_trace_sections | split; reflexivity].
+Qed.
+
+Lemma C16_pywrite_data_content_thm : forall (o : pwopts) (p l : bytes) (cs : list pcall) (unz : bytes -> bytes -> bytes),
+  (forall stored, unz [] stored = stored) ->
+  forall b, py_write o (PcStart p l :: cs ++ [PcFinish]) = POk b -> data_calls cs = true ->
+  Forall chunk_small (py_trace o (PcStart p l :: cs ++ [PcFinish])) ->
+  let recs := all_records unz (data_items o p l cs) in
+  filter (is_op OpMessage) recs = map (fun m => CR OpMessage (enc_message m)) (msgs_of cs)
+  /\ filter ComposeFacts.is_att recs
+     = map (fun x => CA (fst x) (snd x) (crc32 (enc_attachment_fields (fst x) ++ snd x))) (atts_of cs)
+  /\ filter (is_op OpMetadata) recs = map (fun m => CR OpMetadata (py_enc_metadata m)) (mds_of cs)
+  (* (d) schemas / channels: all registered ones except the dropped *)
+  /\ filter (is_op OpSchema) recs ++ filter (is_op OpSchema) (map cr_of (dropped o p l cs))
+     = map (fun s => CR OpSchema (enc_schema s)) (reg_schemas 0 cs)
+  /\ filter (is_op OpChannel) recs ++ filter (is_op OpChannel) (map cr_of (dropped o p l cs))
+     = map (fun c => CR OpChannel (py_enc_channel c)) (reg_channels 0 cs).
+Proof.
+  intros o p l cs unz Hunz b Hw Hd Hs. cbv zeta.
+  split; [exact (py_data_messages o p l cs unz Hunz b Hw Hd Hs)|].
+  split; [exact (py_data_attachments o p l cs unz Hunz b Hw Hd Hs)|].
+  split; [exact (py_data_metadata o p l cs unz Hunz b Hw Hd Hs)|].
+  split; [exact (py_data_schemas o p l cs unz Hunz b Hw Hd Hs) | exact (py_data_channels o p l cs unz Hunz b Hw Hd Hs)].
+Qed.
+
+Lemma C16_pywrite_lex_content_thm : forall (o : pwopts) (p l : bytes) (cs : list pcall) (lo : lopts) (ds : doracle),
+  lo_emit_chunks lo = false -> mem_bytes [] (lo_custom lo) = false ->
+  forall b, py_write o (PcStart p l :: cs ++ [PcFinish]) = POk b -> data_calls cs = true ->
+  Forall chunk_small (py_trace o (PcStart p l :: cs ++ [PcFinish])) ->
+  let evs := file_events lo ds (py_trace o (PcStart p l :: cs ++ [PcFinish])) in
+  filter (ev_op OpMessage) evs = map (fun m => EvToken OpMessage (enc_message m)) (msgs_of cs)
+  /\ map decode_event (filter (ev_op OpMessage) evs) = map (fun m => Ok (KMessage m)) (msgs_of cs)
+  /\ filter (ev_op OpMetadata) evs = map (fun m => EvToken OpMetadata (py_enc_metadata m)) (mds_of cs)
+  /\ (Forall (fun m => blen (py_enc_metadata m) < two32) (mds_of cs) ->
+      map decode_event (filter (ev_op OpMetadata) evs)
+      = map (fun m => Ok (KMetadata {| md_name := md_name m; md_meta := kv_build (md_meta m) |})) (mds_of cs))
+  /\ (lo_cb lo = CbFull ->
+      filter ev_att evs
+      = map (fun x => EvAttachment (attach_obs lo (fst x) (snd x) (crc32 (enc_attachment_fields (fst x) ++ snd x))))
+            (atts_of cs)).
+Proof.
+  intros o p l cs lo ds He Hc b Hw Hd Hs. cbv zeta.
+  split; [exact (py_lex_messages o p l cs lo ds He Hc b Hw Hd Hs)|].
+  split; [exact (py_lex_messages_decoded o p l cs lo ds He Hc b Hw Hd Hs)|].
+  split; [exact (py_lex_metadata o p l cs lo ds He Hc b Hw Hd Hs)|].
+  split; [exact (py_lex_metadata_decoded o p l cs lo ds He Hc b Hw Hd Hs) | exact (py_lex_attachments o p l cs lo ds He Hc b Hw Hd Hs)].
+Qed.
+
+Lemma C16_pywrite_log_min_max_thm : forall ms : list message,
+  (ms <> [] -> In (log_min ms) (map m_log ms) /\ Forall (fun m => log_min ms <= m_log m) ms)
+  /\ Forall (fun m => m_log m <= log_max ms) ms /\ (ms <> [] -> In (log_max ms) (map m_log ms))
+  /\ log_min [] = 0 /\ log_max [] = 0.
+Proof.
+  intro ms. split; [apply log_min_spec|]. destruct (log_max_spec ms) as [H1 H2]. repeat split; assumption.
+Qed.
+
+Lemma C16_pywrite_chunk_index_fields_thm : forall (o : pwopts) (off : N) (cb : pcb),
+  let ci := ci_of o off cb in
+  let k := chunk_of o cb in
+  ci_offset ci = off /\ ci_length ci = blen (render_item (IChunk k))
+  /\ ci_start ci = k_start k /\ ci_end ci = k_end k /\ ci_comp ci = k_comp k
+  /\ ci_csize ci = blen (k_records k) /\ ci_usize ci = k_usize k
+  /\ ci_milength ci = blen (render (mi_items o cb))
+  /\ (forall ch pos, pn_get ch (ci_mioffsets ci) = Some pos ->
+        po_idx_msg o = true /\
+        exists l1 es l2, cb_indices cb = l1 ++ (ch, es) :: l2
+          /\ pos = off + blen (render_item (IChunk k)) + blen (render (map mi_item l1))
+          /\ ~ In ch (map fst l2))
+  /\ (po_idx_msg o = true -> forall ch, In ch (map fst (cb_indices cb)) -> exists pos, pn_get ch (ci_mioffsets ci) = Some pos).
+Proof.
+  intros o off cb. cbv zeta. repeat split.
+  - cbn [ci_of ci_mioffsets] in H. destruct (po_idx_msg o); [reflexivity | discriminate].
+  - cbn [ci_of ci_mioffsets] in H. destruct (po_idx_msg o); [|discriminate].
+    apply mi_offs_spec in H. destruct H as [[H _] | H]; [discriminate | exact H].
+  - intros Hm ch Hin. cbn [ci_of ci_mioffsets]. rewrite Hm. apply mi_offs_complete, Hin.
+Qed.
+
+Lemma C16_pywrite_dataend_crc_thm : forall (o : pwopts) (p l : bytes) (cs : list pcall),
+  data_calls cs = true ->
+  (* the value written *)
+  dataend_item (closed_state o p l cs) = IRec OpDataEnd (enc_dataend {| de_crc := pw_crc (closed_state o p l cs) |})
+  /\ (po_data_crcs o = false -> pw_crc (closed_state o p l cs) = 0)
+  /\ (po_data_crcs o = true ->
+      render (before_dataend o p l cs) = pw_out (closed_state o p l cs) ++ pw_rb (closed_state o p l cs)
+      /\ pw_crc (closed_state o p l cs) = crc32 (pw_out (closed_state o p l cs)))
+  (* correct with chunking, or when the last data call is not a registration *)
+  /\ (po_data_crcs o = true -> po_chunking o = true \/ ends_with_reg cs = false ->
+      pw_crc (closed_state o p l cs) = crc32 (render (before_dataend o p l cs))).
+Proof.
+  intros o p l cs Hd. split; [reflexivity|]. split.
+  - intro H. rewrite (py_dataend_crc_value o p l cs Hd), H. reflexivity.
+  - split; [apply (py_dataend_crc_general o p l cs Hd) | apply (py_dataend_crc_ok o p l cs Hd)].
+Qed.
+
+Lemma C16_pywrite_chunks_thm : forall (o : pwopts) (p l : bytes) (cs : list pcall) (b : bytes),
+  py_write o (PcStart p l :: cs ++ [PcFinish]) = POk b -> data_calls cs = true ->
+  Forall (fun it => match it with
+                    | IChunk k =>
+                      (exists cb, k = {| k_start := cb_start cb; k_end := cb_end cb; k_usize := blen (cb_buf cb);
+                                         k_crc := if po_crcs o then crc32 (cb_buf cb) else 0; k_comp := [];
+                                         k_records := cb_buf cb |})
+                      /\ exists inner ms, k_records k = frames inner /\ Forall auto_rec inner
+                                          /\ filter is_msg_rec inner = map (fun m => (OpMessage, enc_message m)) ms
+                                          /\ ms <> [] /\ k_start k = log_min ms /\ k_end k = log_max ms
+                    | _ => True
+                    end) (data_items o p l cs).
+Proof.
+  intros o p l cs b Hw Hd. pose proof (py_chunks_form o p l cs Hd) as H1.
+  pose proof (py_chunks_described o p l cs b Hw Hd) as H2. revert H1 H2.
+  generalize (data_items o p l cs). intros its H1. induction H1 as [|it its Hit _ IH]; intro H2; [constructor|].
+  inversion H2 as [|x y Hx Hy]; subst. constructor; [|apply IH, Hy].
+  destruct it; try exact I. split; [exact Hit | exact Hx].
+Qed.
+
+Lemma C16_pywrite_example_hyps_thm : forall validate cb,
+  cb = CbNone \/ cb = CbFull ->
+  let lo := pyex_lo validate cb in
+  lo_skip_magic lo = false /\ lo_emit_chunks lo = false /\ mem_bytes [] (lo_custom lo) = false
+  /\ (lo_cb lo = CbNone \/ lo_cb lo = CbFull)
+  /\ Forall (item_size_ok lo) (py_trace pyex_o pyex_calls)
+  /\ Forall chunk_small (py_trace pyex_o pyex_calls)
+  /\ wf_file lo ds_id (py_trace pyex_o pyex_calls)
+  /\ (file_steps lo ds_id (py_trace pyex_o pyex_calls) + 1 <= 40)%nat.
+Proof.
+  intros validate cb Hcb. cbv zeta. repeat split.
+  - exact Hcb.
+  - apply pyex_sizes.
+  - apply pyex_small.
+  - apply pyex_wf, Hcb.
+  - destruct Hcb as [-> | ->]; destruct validate; vm_compute; repeat constructor.
+Qed.
 
